@@ -208,12 +208,22 @@ pub fn c08_schedules(ctx: &Ctx, out: &mut RunOut) -> Result<(), Violation> {
                 _ => SchedPolicy::Random,
             });
             ctx.set_num_threads([1usize, 2, 3, 4, 8, 16][ctx.draw(S, 6, "pool-size") as usize]);
+            // Mode T for a share of the schedules: real threads under the baton scheduler, with the
+            // reader's mutexes as scheduling points (hook H1)
+            let mode_t = i >= 3 && ctx.chance(S, 1, if thorough() { 2 } else { 4 }, "mode-t");
+            if mode_t {
+                ctx.set_mode_t(Some([1usize, 2, 3, 4, 8, 16][ctx.draw(S, 6, "mode-t-workers") as usize]));
+                ctx.count("mode-t-loads");
+            } else {
+                ctx.set_mode_t(None);
+            }
             ctx.take_orders();
             let loaded = guarded("load_mem", || sim::lopdf::Document::load_mem(img))?;
             let outcome = match &loaded {
                 Ok(d) => Ok(sim::full_digest(d)),
                 Err(e) => Err(format!("{:?}", e)),
             };
+            ctx.set_mode_t(None);
             match &outcome {
                 Ok(dg) => ctx.event("c08-loaded", 1, *dg),
                 Err(e) => ctx.event("c08-loaded", 0, simcore::fnv(e.as_bytes())),
